@@ -167,7 +167,7 @@ def _(c):
     c.assumed_variants_reason = "Node._search with a pattern: re.compile / fullmatch on node.name; checked by the bounded tier (native/props/c09.py)"
     c.requires("wf, self in P(T)", lambda x: And(wf0(x), self_in_P(x)))
     c.requires("limit >= 0", lambda x: x.a.max_results >= 0 if x.a.tag("max_results") == "int" else True)
-    c.may_raise("Callback", ensures=None, name="the predicate raises")
+    c.may_raise("Callback", ensures=lambda x: z3.BoolVal(not (x.h0.changed(x.h) - set(L.GHOST))), props=("C13",), name="the predicate raises: nothing was written")
 
     def seq_of(x):
         Pre = L.pre_post(x.h0)[0]
